@@ -8,6 +8,13 @@ def hook_commits():
     return [l.split()[0] for l in out.splitlines() if "verif hook" in l]
 
 CLAIMED = {
+ "C17": dict(
+   level="exploration",
+   text="Honest nodes A (dials out) and B (accepts) with the real routing/Network/Peer handshake code; the attacker is the network between them and may open further connections: 2..8/12 moves from 17 kinds (forward, drop, replay, reflect, redirect, own-key answer, unsolicited / self-signed / other-connection / used-challenge / wrong-version answers, own challenge, open, close). After every delivery to an honest node a provenance monitor checks that Connected-under-K only follows a response on that very connection signed by K over an outstanding challenge this node sent there, at most once per challenge, never the node's own key, and that authenticated peers and the key->connection mapping are undisturbed by messages that authenticate nobody.",
+   design="§6 C17",
+   note="Trusted: monitor's bookkeeping of challenges seen leaving each honest node; sign/verify primitives. Attacker never holds an honest private key. Event-granularity scheduling.",
+   technique="deterministic simulation: Dolev-Yao-minus-forgery attacker on a simulated network + handshake provenance monitor"),
+
  "C15": dict(
    level="exploration",
    text="Two real full nodes (routing, verification, consensus processors) on SimNet with a fetch server over the peer's simulated disk: real handshake, BlockchainRequest, header-hash stream, fetches, verification, add. Seeded chain pairs (shared prefix 0..35/120 covering zero to several fork-id checkpoints, syncer suffix 0..8/30, peer suffix longer) x fetch batch size x seeded scheduling of every pending item x faults (duplicates, failed fetches, forced disconnect + reconnect, FIFO or any-order fetch completion). Oracle: peer announces every block after the true fork point; after faults stop the syncer reaches the peer's tip within 80 timer rounds; no processor panics.",
